@@ -152,7 +152,8 @@ def rule_executemany(ctx):
 
     def run(I):
         duck, conn, cur = make_session()
-        conn.attrs["_paramstyle"] = Const("qmark")
+        from ..execmodel import R
+        conn.attrs[R().paramstyle] = Const("qmark")
         return I.call(I.getattr(cur, "executemany"), [Sym("COMMAND", typ="str", truthy=True), Tup(sets)], {}, None)
 
     n = 0
